@@ -1,7 +1,7 @@
 #!/bin/bash
 # every saved seeded change must still apply to /repo and be caught by the checks named in its meta.json
 cd /verif
-for d in seeded/*/; do
+for d in seeded/C[0-9][0-9]-*/; do
   n=$(basename $d)
   props=$(python3 -c "import json;m=json.load(open('$d/meta.json'));print(' '.join(m.get('caught_by',[])[:1]))")
   st=$(python3 -c "import json;m=json.load(open('$d/meta.json'));print('obsolete' if m.get('status') else '')")
